@@ -35,6 +35,9 @@ class NotSupportedFormatError(Exception):
 
 
 def is_url(input):
+    if not isinstance(input, (str, bytes)):
+        # path objects (os.PathLike) are local files
+        return False
     try:
         result = urlparse(input)
         return all([result.scheme, result.netloc])
